@@ -129,7 +129,9 @@ func (v *printer) Printf(format string, args ...interface{}) {
 }
 
 func (v *printer) Println(args ...interface{}) {
-	if v.enab.Enabled(v.level) {
+	// Like the SugaredLogger, skip the formatting only below DPanicLevel: a
+	// Fatalln must terminate even when the fatal level is disabled.
+	if v.level >= zapcore.DPanicLevel || v.enab.Enabled(v.level) {
 		v.print(sprintln(args))
 	}
 }
